@@ -404,3 +404,18 @@ def leaves(data):
     import hashlib
     data = bytes(data)
     return [hashlib.sha256(data[i:i + 16384]).digest() for i in range(0, len(data), 16384)]
+
+
+@native
+def file_length(files, i):
+    return files[i]["length"]
+
+
+@native
+def file_offset(files, i):
+    return sum(f["length"] for f in files[:i])
+
+
+@native
+def files_wellformed(files):
+    return all(isinstance(f, dict) and f.get("length", -1) >= 0 for f in files)
